@@ -141,6 +141,10 @@ func StrLit(s string) *Term {
 
 // App builds an application of an interpreted or declared symbol without simplification.
 func App(name, sort string, args ...*Term) *Term {
+	// IEEE addition and multiplication are commutative: one canonical argument order
+	if (name == "fadd" || name == "fmul") && len(args) == 2 && args[0].id > args[1].id {
+		args = []*Term{args[1], args[0]}
+	}
 	return TC.intern(&Term{Op: "app", Name: name, Args: args, Sort: sort})
 }
 
